@@ -85,6 +85,8 @@ type Exec struct {
 	unsupp    []string
 	ghostSeen map[*ssa.Range]string
 	floatOps  [][2]*Term
+	mapTypes  map[string]*types.Map
+	refComps  map[string]bool
 	assertN   int
 	assertsHit map[string]bool
 	warn      []string
@@ -135,10 +137,64 @@ func (ex *Exec) comp(st *State, name string, sort Sort) *Term {
 	ex.compSorts[name] = sort
 	ex.vc.noteSort(sort)
 	sym := name + "@" + st.epoch
+	isNew := !ex.vc.declared[sym]
 	ex.vc.declare(sym, fmt.Sprintf("(declare-const %s %s)", sym, sort))
 	t := Sym(sym, sort)
 	st.heap[name] = t
+	if isNew && strings.HasPrefix(name, "MV.") {
+		ex.mapWFGlobal(st, name)
+	}
+	if isNew && ex.refComps[name] && name != "alive" {
+		ex.heapTyping(st, name, t)
+	}
 	return t
+}
+
+// heapTyping: every reference stored in the (initial version of a) component is nil or allocated.
+func (ex *Exec) heapTyping(st *State, name string, c *Term) {
+	// relative to the allocation state at the beginning of the epoch the component version belongs to
+	al := ex.alive(&State{heap: map[string]*Term{}, epoch: st.epoch})
+	okRef := func(v *Term) *Term { return Or(Eq(v, IntLit(0)), And(App(">", SBool, v, IntLit(0)), Select(al, v))) }
+	var f *Term
+	switch {
+	case c.Sort == ArraySort(SInt, SInt):
+		r := Sym("r!q", SInt)
+		f = Forall([]*Term{r}, okRef(Select(c, r)))
+	case c.Sort.IsArray() && c.Sort.ElemSort().IsArray() && c.Sort.ElemSort().ElemSort() == SInt:
+		r := Sym("r!q", SInt)
+		k := Sym("k!q", c.Sort.ElemSort().IndexSort())
+		f = Forall([]*Term{r, k}, okRef(Select(Select(c, r), k)))
+	default:
+		return
+	}
+	ex.vc.usesQ = true
+	ex.vc.lines = append(ex.vc.lines, "(assert "+f.String()+")")
+}
+
+func (ex *Exec) markRef(name string, t types.Type) {
+	if isPointerLike(t) || func() bool { _, ok := types.Unalias(t).Underlying().(*types.Interface); return ok }() {
+		if ex.refComps == nil {
+			ex.refComps = map[string]bool{}
+		}
+		ex.refComps[name] = true
+	}
+}
+
+// mapWFGlobal asserts the model invariant of maps for a (new version of a) value component:
+// keys outside a map's domain read as the zero value.
+func (ex *Exec) mapWFGlobal(st *State, mvName string) {
+	mt, ok := ex.mapTypes[mvName]
+	if !ok {
+		return
+	}
+	d, v, _, ks, vs := ex.mapComps(mt)
+	dom := ex.comp(st, d, ArraySort(SInt, ArraySort(ks, SBool)))
+	val := ex.comp(st, v, ArraySort(SInt, ArraySort(ks, vs)))
+	m := Sym("m!q", SInt)
+	k := Sym("k!q", ks)
+	f := Forall([]*Term{m, k}, Implies(Not(Select(Select(dom, m), k)), Eq(Select(Select(val, m), k), ex.vc.Zero(mt.Elem()))))
+	ex.vc.usesQ = true
+	ex.vc.lines = append(ex.vc.lines, "(assert "+f.String()+")")
 }
 
 func (ex *Exec) setComp(st *State, name string, v *Term) {
@@ -167,20 +223,29 @@ func (ex *Exec) fieldComp(structT types.Type, fieldIdx int) (string, Sort, types
 	st := structT.Underlying().(*types.Struct)
 	f := st.Field(fieldIdx)
 	name := "F." + typeKey(types.Unalias(structT)) + "." + sanitize(f.Name())
+	ex.markRef(name, f.Type())
 	return name, ArraySort(SInt, ex.vc.SortOf(f.Type())), f.Type()
 }
 
 func (ex *Exec) cellComp(t types.Type) (string, Sort) {
+	ex.markRef("C."+typeKey(types.Unalias(t)), t)
 	return "C." + typeKey(types.Unalias(t)), ArraySort(SInt, ex.vc.SortOf(t))
 }
 
 func (ex *Exec) sliceComp(elem types.Type) (string, Sort) {
+	ex.markRef("SL."+typeKey(types.Unalias(elem)), elem)
 	return "SL." + typeKey(types.Unalias(elem)), ArraySort(SInt, ArraySort(ex.vc.IntSort(), ex.vc.SortOf(elem)))
 }
 
 func (ex *Exec) mapComps(m *types.Map) (dom, val, ln string, ks, vs Sort) {
 	k := typeKey(types.Unalias(m.Key())) + "." + typeKey(types.Unalias(m.Elem()))
 	ks, vs = ex.vc.SortOf(m.Key()), ex.vc.SortOf(m.Elem())
+	if ex.mapTypes == nil {
+		ex.mapTypes = map[string]*types.Map{}
+	}
+	ex.mapTypes["MV."+k] = m
+	ex.mapTypes["MD."+k] = m
+	ex.markRef("MV."+k, m.Elem())
 	return "MD." + k, "MV." + k, "ML." + k, ks, vs
 }
 
@@ -355,13 +420,16 @@ func (ex *Exec) freshRef(st *State, reach *Term, hint string) *Term {
 
 // assumeAlive records the heap typing fact that a loaded reference is nil or allocated.
 func (ex *Exec) assumeAlive(st *State, reach *Term, v *Term, t types.Type) {
+	if _, isSpec := t.(*SpecArr); isSpec {
+		return
+	}
 	switch types.Unalias(t).Underlying().(type) {
 	case *types.Pointer, *types.Map, *types.Interface, *types.Signature, *types.Chan:
 		if v.Sort == SInt {
 			ex.vc.Assume(reach, Or(Eq(v, IntLit(0)), And(App(">", SBool, v, IntLit(0)), Select(ex.alive(st), v))))
 		}
 	case *types.Slice:
-		if v.Sort == SSlc {
+		if v.Sort == SSlc && ex.vc.quantDepth == 0 {
 			p := ex.vc.SlicePtr(v)
 			ex.vc.Assume(reach, Or(Eq(p, IntLit(0)), And(App(">", SBool, p, IntLit(0)), Select(ex.alive(st), p))))
 			ex.vc.Assume(reach, ex.sliceWF(v))
